@@ -101,14 +101,14 @@ func (c18) Generate(seed uint64, tier string, index int) any {
 			s.CapCS, s.CapSC = pick(), pick()
 			ms.Sessions = append(ms.Sessions, s)
 		}
-		if !race && g.R.Intn(8) == 0 {
+		if !race && g.R.Intn(4) == 0 {
 			// one to three sessions, free-running, on pipes of a few bytes, with
 			// output options: locks shared between the two directions show up
 			// as a run that never ends
 			ms.Free, ms.TinyFree = true, true
 			ms.Sessions = nil
 			extra := [][]string{{}, {"-v"}, {"--progress"}, {"-vv", "--progress"}, {"--info=NAME"}, {"--debug=RECV,SEND"}}[g.R.Intn(6)]
-			capacity := []int{12, 16, 64, 700, 4096}[g.R.Intn(5)] // (a daemon greeting needs 12 bytes per direction)
+			capacity := []int{12, 12, 16, 16, 24, 64, 700, 4096}[g.R.Intn(8)] // (a daemon greeting needs 12 bytes per direction)
 			for i := 0; i < 1+g.R.Intn(3); i++ {
 				ms.Sessions = append(ms.Sessions, MSess{Kind: []string{"pull", "pull", "push-distinct"}[g.R.Intn(3)], CapCS: capacity, CapSC: capacity, Opts: append([]string{"-rlptD"}, extra...)})
 			}
@@ -464,13 +464,13 @@ func runMulti(t *testing.T, ms *MultiScenario, lay Layout, res *Result) {
 	}
 	if out.timeout && ms.TinyFree {
 		// sessions that finished in milliseconds when run alone did not finish in
-		// 90 s of wall-clock time on small free-running pipes: once more, and if
+		// 45 s of wall-clock time on small free-running pipes: once more, and if
 		// it happens again this is a deadlock the scheduled mode cannot see
 		// (goroutines waiting for a lock instead of for the transport)
 		if err := setup(); err == nil {
 			again := execMulti(t, ms, lay, rw)
 			if again.timeout {
-				res.Violate("deadlock", "deadlock:free-running", fmt.Sprintf("%d session(s) with options %v on free-running pipes of %d bytes did not finish within 90 s, twice; alone and on large buffers the same sessions take milliseconds\nserver log: %s", len(ms.Sessions), ms.Sessions[0].Opts, ms.Sessions[0].CapSC, tail(again.srvLog, 1200)))
+				res.Violate("deadlock", "deadlock:free-running", fmt.Sprintf("%d session(s) with options %v on free-running pipes of %d bytes did not finish within 45 s, twice; alone and on large buffers the same sessions take milliseconds\nserver log: %s", len(ms.Sessions), ms.Sessions[0].Opts, ms.Sessions[0].CapSC, tail(again.srvLog, 1200)))
 				return
 			}
 		}
@@ -738,6 +738,9 @@ func execMultiFree(ms *MultiScenario, lay Layout, rw string, out *multiOut) {
 	limit := 90 * time.Second
 	if nstalled > 0 {
 		limit = 60 * time.Second
+	}
+	if ms.TinyFree {
+		limit = 45 * time.Second
 	}
 	select {
 	case <-done:
